@@ -44,6 +44,20 @@ def buildItems (md : Mode) : List String → Option Bytes
     | ["r", raw] => do pure ((← parseBytes? raw) ++ rest)
     | _ => none
 
+/-- write the messages through the mode, read the announced stream back (any segmentation: the model
+reads the concatenation, which `readFullSegs_eq_readN` justifies) -/
+def rtOp (md msgs : String) : String :=
+  match parseMode? md, parseBytesList? msgs with
+  | some md, some ms =>
+    let (b, e) := writeAll md ms
+    if e ≠ "-" then s!"werr={e}" else
+    match detect (announce md ++ b) with
+    | .error e => s!"mode=err:{showErr e}"
+    | .ok (md', s) =>
+      let (fs, e) := readAll md' (s.length + 1) s
+      s!"mode={showMode md'} msgs={showList (fs.map showBytes)} end={showErr e}"
+  | _, _ => "bad-op"
+
 def handle : List String → String
   | ["c08.write", md, msgs] =>
     match parseMode? md, parseBytesList? msgs with
@@ -51,17 +65,9 @@ def handle : List String → String
       let (b, e) := writeAll md ms
       s!"bytes={showBytes (announce md ++ b)} err={e}"
     | _, _ => "bad-op"
-  | ["c08.rt", md, _splits, msgs] =>
-    match parseMode? md, parseBytesList? msgs with
-    | some md, some ms =>
-      let (b, e) := writeAll md ms
-      if e ≠ "-" then s!"werr={e}" else
-      match detect (announce md ++ b) with
-      | .error e => s!"mode=err:{showErr e}"
-      | .ok (md', s) =>
-        let (fs, e) := readAll md' (s.length + 1) s
-        s!"mode={showMode md'} msgs={showList (fs.map showBytes)} end={showErr e}"
-    | _, _ => "bad-op"
+  | ["c08.rt", md, _splits, msgs] => rtOp md msgs
+  -- the same stream through transport.NewTCP + mode.Detect over loopback: the model is the same function
+  | ["c08.det", md, _splits, msgs] => rtOp md msgs
   | ["c08.read", segs] =>
     match parseBytesList? segs with
     | some sg =>
